@@ -226,7 +226,11 @@ class Index:
             except SyntaxError as e:
                 raise AnalysisError(f"cannot parse {rel}: {e}")
             if rel.endswith(".py") and os.environ.get("ALLFEDSA_NO_CANON") != "1":
-                from .canon import canonicalise
+                from .canon import canonicalise, namedtuples_as_tuples
+                nts_, rets_ = self._namedtuples()
+                n_nt = namedtuples_as_tuples(tree, nts_, rets_)
+                if n_nt:
+                    self.canon_counts["named tuples read as tuples"] = self.canon_counts.get("named tuples read as tuples", 0) + n_nt
                 counts = canonicalise(tree, self._class_table())
                 for k, v in counts.items():
                     self.canon_counts[k] = self.canon_counts.get(k, 0) + v
@@ -502,6 +506,19 @@ class Index:
                         names.add(tok)
             self._anchors = names
         return self._anchors
+
+    def _namedtuples(self):
+        if getattr(self, "_nt", None) is None:
+            from .canon import namedtuple_tables
+            raw = []
+            for r in self.py_files("src"):
+                try:
+                    with open(self.path(r), encoding="utf-8") as f:
+                        raw.append(ast.parse(f.read()))
+                except (SyntaxError, OSError):
+                    continue
+            self._nt = namedtuple_tables(raw)
+        return self._nt
 
     def _class_table(self):
         """classes of src/ with a repository-wide unique name (raw parse; used to decide which callee a call certainly reaches)"""
